@@ -187,6 +187,45 @@ def run(ctx):
                 if got is not None and got != ref:
                     ctx.violation('verdict-depends-on-spelling-or-path', {'name': n, 'value': sp, 'how': how, 'reference_value': v},
                                   'valid=%r but %r for the plain parsed spelling' % (got, ref), KNOWN_PRED)
+    # ---- search: number spellings (.5 / 0.5 / 0.50, signs) at the registry's own entry points, and Property.valid under
+    # serializer preferences that change how numbers are written (the verdict depends on the value, not on its spelling)
+    P = cssutils.profile
+    NUMSP = [('0.5', ['.5', '0.5', '0.50', '.50']), ('-0.25', ['-.25', '-0.25', '-.250']), ('1.5', ['1.5', '1.50', '01.5']), ('0.75', ['+.75', '+0.75'])]
+    NUMPROPS = [('width', 'px', True), ('line-height', '', True), ('opacity', '', True), ('margin-left', 'em', True), ('font-size', '%', True), ('letter-spacing', 'in', True),
+                ('z-index', '', False), ('color', 'px', False), ('top', 'cm', True), ('azimuth', 'deg', True), ('pause-after', 's', True), ('pitch', 'khz', True)]
+    for n_, unit, _ in NUMPROPS:
+        for canon, sps in NUMSP:
+            vs = {}
+            for sp in sps:
+                v_ = sp + unit
+                ctx.case(('numspelling', n_, v_))
+                try:
+                    vs[v_] = (bool(P.validate(n_, v_)), tuple(P.validateWithProfile(n_, v_)[:2]))
+                except Exception as e:
+                    ctx.violation('raises', {'name': n_, 'value': v_}, '%s: %s' % (type(e).__name__, e), KNOWN_PRED)
+            if len(set(vs.values())) > 1:
+                ctx.violation('verdict-depends-on-spelling-or-path', {'name': n_, 'values': sorted(vs), 'how': 'profile.validate'},
+                              'validate / validateWithProfile per spelling of one number: %r' % vs, KNOWN_PRED)
+            for sp in sps:
+                v_ = sp + unit
+                ref = prop_valid(n_, v_, 'parsed')
+                for prefs in ({'omitLeadingZero': True}, 'minified'):
+                    try:
+                        if prefs == 'minified':
+                            cssutils.ser.prefs.useMinified()
+                        else:
+                            cssutils.ser.prefs.omitLeadingZero = True
+                        got = [prop_valid(n_, v_, how) for how in ('parsed', 'constructed', 'dom')]
+                    finally:
+                        cssutils.ser.prefs.useDefaults()
+                    if any(g is not None and g != ref for g in got):
+                        ctx.violation('verdict-depends-on-spelling-or-path', {'name': n_, 'value': v_, 'how': 'serializer preferences %r' % (prefs,)},
+                                      'valid=%r under the preference, %r under the defaults' % (got, ref), KNOWN_PRED)
+    for n_, v_, exp in [('width', '.5in', True), ('width', '.5%', True), ('line-height', '.5', True), ('margin-top', '-.5em', True), ('letter-spacing', '.1px', True),
+                        ('width', '.px', False), ('width', '5.px', False), ('line-height', '.', False)]:
+        ctx.case(('single-direct', n_, v_))
+        if bool(P.validate(n_, v_)) != exp:
+            ctx.violation('css21-single', {'name': n_, 'value': v_, 'how': 'profile.validate'}, 'validate=%r, grammar says %r' % (P.validate(n_, v_), exp), KNOWN_PRED)
     # ---- search: the verdict does not depend on how the NAME is spelled either (case, simple escapes, hex escapes)
     for _ in range(60 if quick else 1500):
         n = rng.choice([x for x in names if len(x) > 2 and x[1] not in '0123456789abcdefABCDEF'])
